@@ -668,25 +668,37 @@ func genInterpAllY(g *vlib.G) {
 					t.Outcome(fmt.Sprintf("%s n=%d", ss.name, len(xs)))
 					for _, me := range interpMethods() {
 						if len(xs) >= me.minN && !t.Failed() {
-							allYCase(t, me, xs)
+							allYCase(t, me, xs, []float64{0, 1, 3})
 						}
 					}
 				})
+				// A second value alphabet with a negative value (sign changes), one knot fewer.
+				if m <= maxM-1 {
+					g.Case("all-y4 "+ss.name+" "+name, func(t *vlib.T) {
+						xs, _, _ := knotsFromCode(ss, code, m)
+						t.Nontrivial()
+						t.Outcome(fmt.Sprintf("%s n=%d four values", ss.name, len(xs)))
+						for _, me := range interpMethods() {
+							if len(xs) >= me.minN && !t.Failed() {
+								allYCase(t, me, xs, []float64{-2, 0, 1, 3})
+							}
+						}
+					})
+				}
 			}
 		}
 	}
 }
 
-func allYCase(t *vlib.T, me interpMethod, xs []float64) {
+func allYCase(t *vlib.T, me interpMethod, xs []float64, vals []float64) {
 	n := len(xs)
-	vals := []float64{0, 1, 3}
 	ys := make([]float64, n)
 	radices := make([]int, n)
 	for i := range radices {
-		radices[i] = 3
+		radices[i] = len(vals)
 	}
 	refit := me.newFit()
-	ds := dataSet{"y in {0,1,3}^n", ys, -1}
+	ds := dataSet{fmt.Sprintf("y in %v^n", vals), ys, -1}
 	first := true
 	vlib.Product(radices, func(idx []int) bool {
 		for i, k := range idx {
